@@ -149,6 +149,41 @@ def run_cases(run, tier, seed, tag, with_ref_events=True):
             if with_ref_events:
                 ref_ops.append({"op": "ref", "w": w, "id": ci, "k": k, "file": ref, "rc": rc, "ambig_mask": am, "repeat_mask": rm,
                                 "ctx": {"contigs": [b(c) for c in contigs], "k": k, "rc": rc, "repeat_mask": rm}})
+        # synthetic tables: every reference k-mer (or a random subset) present with random bytes from all 15
+        # IUPAC codes and '-', so that every code meets both strand orientations of reference k-mers
+        import derive as _dv
+        for ci in range(max(6, ncase // 3)):
+            k = rng.choice([5, 7, 9, 11, 15, 21, 31, 33, 41, 63])
+            contigs = make_reference(rng, k, "quick")
+            contigs = [c.upper() for c in contigs]
+            cnames = ["c%d" % i for i in range(len(contigs))]
+            ns = rng.randint(1, 4)
+            rows, seen = [], set()
+            for c in contigs:
+                for i in range(len(c) - k + 1):
+                    w = c[i:i + k]
+                    if any(ch not in "ACGT" for ch in w) or rng.random() < 0.3:
+                        continue
+                    arms, isrc, pal = _dv.canon_arms(w)
+                    if arms in seen:
+                        continue
+                    seen.add(arms)
+                    bases = [ord(rng.choice("ACGTRYSWKMBDHVN-ACGT")) for _ in range(ns)]
+                    if all(x == 45 for x in bases):
+                        bases[0] = 65
+                    rows.append([vlib.digits(arms), bases])
+            if not rows:
+                continue
+            rows.sort()
+            ref = os.path.join(sb.dir, "sref%d.fa" % ci)
+            vlib.write_fasta(ref, contigs, names=cnames)
+            table = {"k": k, "rc": True, "names": ["y%d_%d" % (ci, i) for i in range(ns)], "rows": rows}
+            am, rm = rng.random() < 0.3, rng.random() < 0.3
+            ctx = {"contigs": [b(c) for c in contigs], "cnames": cnames, "table": table, "ambig_mask": am, "repeat_mask": rm}
+            lib_ops.append({"op": "map", "w": 64 if k <= 31 else 128, "id": 5000 + ci, "table": table, "file": ref, "ambig_mask": am,
+                            "repeat_mask": rm, "threads": 1, "ctx": ctx})
+            run.evaluations += 1
+            run.nontriv(["synthetic", contigs, rows, am, rm])
         for ev in vlib.skav_parallel("exec", lib_ops, jobs=8):
             ev["via"] = "lib"
             if ev.get("panic", "") == "":
